@@ -2,7 +2,7 @@
 # Re-evaluate every filed property-preserving change (seeded/r-* and seeded/s-*) against the current checks.
 # usage: selftest/reeval_refactorings.sh [name ...]      expected: alarms=[] for every one
 cd "$(dirname "$0")/.." || exit 2
-names=("$@"); [ ${#names[@]} -eq 0 ] && names=($(ls seeded | grep -E '^[rs]-[0-9]+$'))
+names=("$@"); [ ${#names[@]} -eq 0 ] && names=($(ls seeded | grep -E '^[rst]-[0-9]+$'))
 for n in "${names[@]}"; do
   timeout 7200 /venv/bin/python selftest/refactoring.py "seeded/$n" "$n" 2>&1 | grep -v "^WARNING conda" | cut -c1-600
 done
